@@ -815,20 +815,39 @@ impl Property for C13 {
         let s_done = snapshot(&w); // what a completed crash run looks like
         let mut points: Vec<CrashPoint> = vec![];
         let log = std::fs::read_to_string(&fslog).unwrap_or_default();
-        let mut effects = 0;
+        // Effects are addressed by (class, k); each class is touched by one thread, so the coordinate is a function
+        // of the scenario - except for how many write() calls a log archive receives, which depends on how the
+        // flush timer happened to chunk the child's output. The canonical list (sampled from, and counted in the
+        // trace) therefore holds every effect except the 2nd and later writes of a log archive; those are
+        // executed in addition when every point is executed.
+        let mut effs: Vec<(String, usize, String)> = vec![];
         for l in log.lines() {
             let f: Vec<&str> = l.splitn(7, ' ').collect();
             if f.len() < 7 {
                 continue;
             }
-            effects += 1;
-            let (op, cls, k) = (f[2], f[3], f[4]);
-            points.push(CrashPoint::Fs(format!("{}:{}:before", cls, k)));
-            points.push(CrashPoint::Fs(format!("{}:{}:after", cls, k)));
+            effs.push((f[3].to_string(), f[4].parse().unwrap_or(0), f[2].to_string()));
+        }
+        effs.sort();
+        effs.dedup();
+        let mut effects = 0;
+        let mut extra_points: Vec<CrashPoint> = vec![];
+        let mut log_writes_seen: BTreeMap<String, usize> = BTreeMap::new();
+        for (cls, k, op) in &effs {
+            let mut timing_dependent = false;
+            if cls.starts_with("log:") && op == "write" {
+                let n = log_writes_seen.entry(cls.clone()).or_insert(0);
+                *n += 1;
+                timing_dependent = *n >= 2;
+            }
+            let dst = if timing_dependent { &mut extra_points } else { effects += 1; &mut points };
+            dst.push(CrashPoint::Fs(format!("{}:{}:before", cls, k)));
+            dst.push(CrashPoint::Fs(format!("{}:{}:after", cls, k)));
             if op == "write" {
-                points.push(CrashPoint::Fs(format!("{}:{}:torn", cls, k)));
+                dst.push(CrashPoint::Fs(format!("{}:{}:torn", cls, k)));
             }
         }
+        out.probe("further_log_archive_writes_recorded", (extra_points.len() / 3) as u64);
         let mut seen: BTreeMap<String, usize> = BTreeMap::new();
         for p in &rtr.points {
             let n = seen.entry(p.name.clone()).or_insert(0);
@@ -842,6 +861,8 @@ impl Property for C13 {
         out.trace.push(format!("recorded {} filesystem effects, {} points, {} steps -> {} crash points", effects, rtr.points.len(), rtr.steps, total_points));
         if !sc.only_points.is_empty() {
             points = sc.only_points.clone();
+        } else if sc.max_points == 0 {
+            points.extend(extra_points);
         } else if sc.max_points > 0 && points.len() > sc.max_points {
             // seeded sample, always keeping the effects around the pointer and result files
             let mut rng = Rng::new(sc.sample_seed);
